@@ -87,7 +87,7 @@ def setup():
 # ---- Coq rendering ------------------------------------------------------------------------------------------
 
 def finite(vs):
-    return vs not in ("NaN", "+Inf", "-Inf", "Inf")
+    return vs not in ("NaN", "+Inf", "-Inf", "Inf", "stale")
 
 
 def coq_q(vs):
@@ -124,6 +124,16 @@ def coq_labels(lb):
 
 def samples_coq(s):
     return "[" + "; ".join("(%s, %s)" % (coq_z(p["t"]), coq_q(p["v"])) for p in (s.get("samples") or [])) + "]"
+
+
+def osamples_coq(s):
+    return "[" + "; ".join("(%s, %s)" % (coq_z(p["t"]), "None" if p["v"] == "stale" else "Some %s" % coq_q(p["v"]))
+                           for p in (s.get("samples") or [])) + "]"
+
+
+def scase_coq(fn, param, t, rng, off, s):
+    return "(%s, %s, %s, %s, %s, %s, %s, %s, %s)" % (fn, coq_q(param or "0"), coq_z(t), coq_z(rng), coq_z(off), osamples_coq(s), lens_coq(s),
+                                                      coq_oxval(s.get("up")), coq_oxval(s.get("sv")))
 
 
 def lens_coq(s):
@@ -167,7 +177,7 @@ def vvcase_coq(m):
 
 
 HEADER = ("From Coq Require Import String.\nFrom Coq Require Import QArith ZArith List Bool NArith.\n"
-          "From OG Require Import C18.Model C18.Model2 C18.Model3 C18.Corr.\nImport ListNotations.\nOpen Scope Q_scope.\n")
+          "From OG Require Import C18.Model C18.Model2 C18.Model3 C18.Model4 C18.Corr.\nImport ListNotations.\nOpen Scope Q_scope.\n")
 
 
 def vec_finite(v):
@@ -272,7 +282,7 @@ def main(ck):
 
     # ---- model evaluation ------------------------------------------------------------------------------------
     rcs, acs, bcs = [], [], []     # (case index, series index, coq text, meta)
-    extra = {"vs": [], "vv": []}     # binary operator cases
+    extra = {"vs": [], "vv": [], "st": []}     # binary operator cases; st: series with staleness markers
     skipped_nonfinite = 0
     for ci, c in enumerate(cases):
         m = c.get("model")
@@ -284,7 +294,11 @@ def main(ck):
                 vals = [p["v"] for p in (s.get("samples") or [])]
                 outs = [x for x in (s.get("up"), s.get("sv")) if x is not None]
                 # +-Inf results are expressible for quantile_over_time (q outside [0,1]); NaN never is
-                if not all(finite(v) for v in vals) or not all(finite(v) or (fn == "FQuantile" and v != "NaN") for v in outs):
+                outs_ok = all(finite(v) or (fn == "FQuantile" and v in ("+Inf", "-Inf", "Inf")) for v in outs)
+                if outs_ok and "stale" in vals and all(finite(v) or v == "stale" for v in vals):
+                    extra["st"].append((ci, si, scase_coq(fn, m.get("param"), m["t"], m.get("range_ms", 0), m.get("offset_ms", 0), s)))
+                    continue
+                if not all(finite(v) for v in vals) or not outs_ok:
                     skipped_nonfinite += 1
                     continue
                 rcs.append((ci, si, rcase_coq(fn, m.get("param"), m["t"], m.get("range_ms", 0), m.get("offset_ms", 0), s)))
@@ -319,7 +333,7 @@ def main(ck):
                       "Definition M := Eval vm_compute in bmismatches cases.\nPrint M.\n" % ";\n".join(x[2] for x in bcs[i:i + shard])))
     nb = len(files) - nr - na
     xfiles = []     # (file index, kind, first case index)
-    for kind, typ, fn in (("vs", "vscase", "vsmismatches"), ("vv", "vvcase", "vvmismatches")):
+    for kind, typ, fn in (("vs", "vscase", "vsmismatches"), ("vv", "vvcase", "vvmismatches"), ("st", "scase", "smismatches")):
         for i in range(0, len(extra[kind]), shard):
             xfiles.append((len(files), kind, i))
             files.append(("%s%d" % (kind, i // shard), HEADER + "Definition cases : list %s := [\n%s\n].\n"
@@ -337,7 +351,7 @@ def main(ck):
     res = ck.coq_eval_many(files, timeout=240) if ok else []
     ck.log("model evaluation done")
     rmis, amis, bmis = {}, {}, {}
-    xmis = {"vs": {}, "vv": {}}
+    xmis = {"vs": {}, "vv": {}, "st": {}}
     xof = {fi: (kind, first) for fi, kind, first in xfiles}
     for idx, (rc2, o) in enumerate(res):
         mm = re.search(r"M\s*=\s*(.*?)\s*:\s*list", o, re.S)
@@ -411,6 +425,17 @@ def main(ck):
             model_bad.append(("absent-impl-vs-server", ci, si, code))
         else:
             validated += 1
+    for k, (ci, si, _) in enumerate(extra["st"]):
+        code = xmis["st"].get(k, 0)
+        c = cases[ci]
+        if code & 8:
+            ties += 1
+        elif code & 1:
+            model_bad.append(("stale-spec-vs-upstream", ci, si, code))
+        elif (code & 2) and not (c.get("known") or c.get("unexplained")):
+            model_bad.append(("stale-impl-vs-server", ci, si, code))
+        else:
+            validated += 1
     for kind in ("vs", "vv"):
         for k, (ci, si, _) in enumerate(extra[kind]):
             code = xmis[kind].get(k, 0)
@@ -446,7 +471,8 @@ def main(ck):
     ck.cov["rule"] = ("one case = (data set, expression, instant time | range start/end/step); non-trivial = upstream evaluated it without "
                       "error and returned at least one point; distinct = different (expression, timing)")
     ck.cov["model_cases"] = {"range_or_selector_series": len(rcs), "aggregations": len(acs), "absent_over_time": len(bcs), "vector_scalar_binops": len(extra["vs"]),
-                             "vector_vector_binops": len(extra["vv"]), "threshold_ties_skipped": ties,
+                             "vector_vector_binops": len(extra["vv"]), "series_with_staleness_markers": len(extra["st"]),
+                             "threshold_ties_skipped": ties,
                              "non_finite_skipped": skipped_nonfinite, "matched_current_only": variant_current,
                              "matched_repaired_only": variant_repaired, "model_disagreements": len(model_bad)}
     ck.cov["form_histogram"] = forms
